@@ -195,6 +195,13 @@ func (c *Coord) Sessions() []*FakeSession {
 	return append([]*FakeSession{}, c.sessions...)
 }
 
+// SetScript installs (or, with nil, removes) the script while sessions may be writing
+func (c *Coord) SetScript(f func(s *FakeSession, kind string, m message.RpcMessage) Action) {
+	c.mu.Lock()
+	c.Script = f
+	c.mu.Unlock()
+}
+
 func (c *Coord) ResetLog() {
 	c.mu.Lock()
 	c.Log = nil
